@@ -62,75 +62,86 @@ Definition listing_text (ls : list (N * list token)) : str :=
 Section WithOracle.
 Variable O : oracle.
 
-(* call execute(q) until a blocking event; events other than Running are recorded *)
-Fixpoint run_until (fuel : nat) (q : N) (r : rt) (acc : list str) : res (rt * list str) :=
+(* call execute(q) until a blocking event; events other than Running are recorded;
+   also returns the code of the last Errors event seen *)
+Fixpoint run_until' (fuel : nat) (q : N) (r : rt) (acc : list str) (last : option N)
+  : res (rt * list str * option N) :=
   match fuel with
-  | 0%nat => Ok (r, s2l "TIMEOUT" :: acc)
+  | 0%nat => Ok (r, s2l "TIMEOUT" :: acc, last)
   | S f =>
       do x <- rt_execute O r q;
       let '(r', e) := x in
+      let last' := match e with EvErrors (e1 :: _) => Some (ecode e1) | _ => last end in
       match e with
-      | EvRunning => run_until f q r' acc
-      | _ => if is_blocking e then Ok (r', show_event e :: acc)
-             else run_until f q r' (show_event e :: acc)
+      | EvRunning => run_until' f q r' acc last'
+      | _ => if is_blocking e then Ok (r', show_event e :: acc, last')
+             else run_until' f q r' (show_event e :: acc) last'
       end
   end.
+Definition run_until (fuel : nat) (q : N) (r : rt) (acc : list str) : res (rt * list str) :=
+  do x <- run_until' fuel q r acc None; Ok (fst x).
 
 Definition arg_of (call : str) : str := match call with _ :: _ :: r => r | _ => [] end.
 Definition num_of (call : str) : N := match call with _ :: r => match parse_udec r with Some n => n | None => 0 end | [] => 0 end.
 
-Definition do_call (r : rt) (call : str) : res (rt * list str) :=
-  match call with
-  | 69 :: 58 :: h =>                          (* E:<hex> *)
-      do x <- rt_enter O r (str_of_hex h); Ok (fst x, [])
-  | 88 :: _ =>                                (* X<n> : one execute call *)
-      do x <- rt_execute O r (num_of call); Ok (fst x, [show_event (snd x)])
-  | 82 :: _ =>                                (* R<n> : until blocking *)
-      run_until 3000 (num_of call) r []
-  | 65 :: rest =>                             (* A<q>:<hex> : answer a pending INPUT, then run *)
-      match r_state r with
-      | StInput =>
-          match split_on 58 rest [] with
-          | [q; h] =>
-              do x <- rt_enter O r (str_of_hex h);
-              run_until 3000 (match parse_udec q with Some n => n | None => 5000 end) (fst x) []
-          | _ => Ok (r, [s2l "?"])
-          end
-      | _ => Ok (r, [])
-      end
-  | 73 :: _ => Ok (rt_interrupt r, [])        (* I *)
-  | 71 :: _ => Ok (rt_get_listing r true, []) (* G : snapshot held *)
-  | 103 :: _ => Ok (rt_get_listing r false, [])  (* g : snapshot dropped at once *)
-  | 68 :: _ => Ok (rt_drop_listing r, [])     (* D : drop a held snapshot *)
-  | 84 :: _ => Ok (r, [s2l "T:" ++ hex_of_str (listing_text (ls_lines (r_listing r)))])   (* T : listing text *)
-  | 76 :: 58 :: rest =>                       (* L:<hex>:<run> *)
-      match split_on 58 rest [] with
-      | [h; runflag] =>
-          match load_file (str_of_hex h) with
-          | Ok ls => do r' <- rt_set_listing O r ls (str_eqb runflag [49]); Ok (r', [])
-          | Err e => Ok (r, [s2l "LE:" ++ dec_of_N (ecode e)])
-          | Panic => Panic
-          | Hang => Hang
-          end
-      | _ => Ok (r, [s2l "?"])
-      end
-  | _ => Ok (r, [s2l "?"])
-  end.
+Definition do_call (r : rt) (last : option N) (call : str) : res (rt * list str * option N) :=
+  let keep (x : res (rt * list str)) : res (rt * list str * option N) := do y <- x; Ok (y, last) in
+  let c0 := match call with c :: _ => c | [] => 0 end in
+  let rest := match call with _ :: t => t | [] => [] end in
+  let after_colon := match rest with _ :: t => t | [] => [] end in
+  if c0 =? 75 then                             (* K<q> : CONT, but only when the last run was stopped by ?BREAK *)
+    match last with
+    | Some 0 => do x <- rt_enter O r (s2l "CONT");
+                run_until' 3000 (match parse_udec rest with Some q => q | None => 5000 end) (fst x) [] None
+    | _ => Ok (r, [], last)
+    end
+  else if c0 =? 82 then run_until' 3000 (num_of call) r [] None          (* R<n> : until blocking *)
+  else if c0 =? 69 then keep (do x <- rt_enter O r (str_of_hex after_colon); Ok (fst x, []))   (* E:<hex> *)
+  else if c0 =? 88 then keep (do x <- rt_execute O r (num_of call); Ok (fst x, [show_event (snd x)]))  (* X<n> *)
+  else if c0 =? 65 then                        (* A<q>:<hex> : answer a pending INPUT, then run *)
+    match r_state r with
+    | StInput =>
+        match split_on 58 rest [] with
+        | [q; h] =>
+            do x <- rt_enter O r (str_of_hex h);
+            run_until' 3000 (match parse_udec q with Some n => n | None => 5000 end) (fst x) [] last
+        | _ => Ok (r, [s2l "?"], last)
+        end
+    | _ => Ok (r, [], last)
+    end
+  else if c0 =? 73 then Ok (rt_interrupt r, [], last)                    (* I *)
+  else if c0 =? 71 then Ok (rt_get_listing r true, [], last)             (* G : snapshot held *)
+  else if c0 =? 103 then Ok (rt_get_listing r false, [], last)           (* g : snapshot dropped at once *)
+  else if c0 =? 68 then Ok (rt_drop_listing r, [], last)                 (* D : drop a held snapshot *)
+  else if c0 =? 84 then Ok (r, [s2l "T:" ++ hex_of_str (listing_text (ls_lines (r_listing r)))], last)   (* T *)
+  else if c0 =? 76 then                        (* L:<hex>:<run> *)
+    match split_on 58 after_colon [] with
+    | [h; runflag] =>
+        match load_file (str_of_hex h) with
+        | Ok ls => do r' <- rt_set_listing O r ls (str_eqb runflag [49]); Ok (r', [], last)
+        | Err e => Ok (r, [s2l "LE:" ++ dec_of_N (ecode e)], last)
+        | Panic => Panic
+        | Hang => Hang
+        end
+    | _ => Ok (r, [s2l "?"], last)
+    end
+  else Ok (r, [s2l "?"], last).
 
-Fixpoint run_calls (r : rt) (calls : list str) (acc : list str) : list str :=
-  match calls with
-  | [] => acc
-  | c :: rest =>
-      match do_call r c with
-      | Ok (r', evs) => run_calls r' rest (evs ++ acc)
-      | Err e => s2l "MODEL-ERR" :: acc
-      | Panic => s2l "PANIC" :: acc
-      | Hang => s2l "HANG" :: acc
+(* state of the interpretation of a call list: None after the model itself failed *)
+Definition call_step (st : option (rt * option N) * list str) (c : str) : option (rt * option N) * list str :=
+  match st with
+  | (None, acc) => (None, acc)
+  | (Some (r, last), acc) =>
+      match do_call r last c with
+      | Ok (r', evs, last') => (Some (r', last'), evs ++ acc)
+      | Err e => (None, s2l "MODEL-ERR" :: acc)
+      | Panic => (None, s2l "PANIC" :: acc)
+      | Hang => (None, s2l "HANG" :: acc)
       end
   end.
 
 Definition run_session (calls : list str) : str :=
-  join [124] (rev (run_calls rt_default calls [])).
+  join [124] (rev (snd (fold_left call_step calls (Some (rt_default, None), [])))).
 
 End WithOracle.
 
